@@ -103,22 +103,74 @@ def _stmts(case):
     return nodes
 
 
-def pred_return_closes_throwing_iterator(case, record, expected):
-    """C09-N7: a return() in the history, a for-of over a hand-written iterator whose return() throws (rtn == "T")
-    located inside a finally block, and the exception escaped the driver's try/catch (script/STEP error)"""
-    if case.get("kind") != "gen" or "return" not in [o.get("k") for o in case.get("ops") or []]:
-        return False
+def _escaped(case, record):
+    """the exception left the driver's own try/catch: a script / STEP error, or fewer observations than calls"""
     obs = record.get("obs") or ""
-    if not (obs.startswith("script error: 2") or obs.startswith("STEP error: 2")):    # the thrown value is arg+2000
+    if obs.startswith("script error") or obs.startswith("STEP error"):
+        return True
+    try:
+        out = json.loads(obs)
+        return isinstance(out, list) and len(out) < len(case.get("ops") or [])
+    except Exception:
         return False
+
+
+def _finally_blocks(case, nested_in_try=False):
+    """finally blocks of the top-level body and of inner generators; with nested_in_try only those of try statements
+    that lie inside the protected block (or catch clause) of another try statement"""
+    res = []
     for path, n in _stmts(case):
         if n.get("k") in ("tryfinally", "trycf"):
             fin = n.get("b") if n["k"] == "tryfinally" else n.get("c")
-            blk = []
-            _walk(fin, [], blk)
-            for _, m in blk:
-                if m.get("k") == "forof" and isinstance(m.get("s"), dict) and (m["s"].get("h") or {}).get("rtn") == "T":
-                    return True
+            if nested_in_try:
+                # walk up: is some ancestor a try statement reached through its "a" (or catch "b" of trycf/trycatch)?
+                node, ok = case, False
+                anc = []
+                for key in path:
+                    anc.append((node, key))
+                    node = node[key] if isinstance(node, dict) else None
+                for a, key in anc:
+                    if isinstance(a, dict) and a.get("k") in ("tryfinally", "trycf", "trycatch") and key == "a":
+                        ok = True
+                    if isinstance(a, dict) and a.get("k") in ("trycf",) and key == "b":
+                        ok = True
+                if not ok:
+                    continue
+            res.append(fin)
+    return res
+
+
+def pred_return_closes_throwing_iterator(case, record, expected):
+    """C09-N7: a return() in the history, a for-of over a hand-written iterator whose return() throws or answers a
+    non-object (rtn T / N) located inside a finally block, and the exception escaped the driver's try/catch"""
+    if case.get("kind") != "gen" or "return" not in [o.get("k") for o in case.get("ops") or []]:
+        return False
+    if not _escaped(case, record):
+        return False
+    for fin in _finally_blocks(case):
+        blk = []
+        _walk(fin, [], blk)
+        for _, m in blk:
+            if m.get("k") == "forof" and isinstance(m.get("s"), dict) and (m["s"].get("h") or {}).get("rtn") in ("T", "N"):
+                return True
+    return False
+
+
+_CAN_RAISE = ('"k": "throw"', '"k": "bad"', '"k": "forof"', '"k": "ystar"')
+
+
+def pred_exception_in_return_finally(case, record, expected):
+    """C09-N9: a return() in the history, a try/finally nested inside another try statement whose finally block
+    contains something that can raise (throw, a non-iterable, iterator protocol calls), and the exception escaped the
+    driver's try/catch"""
+    if case.get("kind") != "gen" or "return" not in [o.get("k") for o in case.get("ops") or []]:
+        return False
+    if not _escaped(case, record):
+        return False
+    for fin in _finally_blocks(case, nested_in_try=True):
+        txt = json.dumps(fin)
+        if any(t in txt for t in _CAN_RAISE):
+            return True
     return False
 
 
@@ -166,6 +218,7 @@ CFG = {
     "predicates": {
         "C09.return_closes_throwing_iterator_inside_finally": pred_return_closes_throwing_iterator,
         "C09.await_promise_with_throwing_constructor": pred_await_bad_constructor,
+        "C09.exception_in_return_finally_skips_outer_handlers": pred_exception_in_return_finally,
     },
     "manifest": {
         "text": ("proof: goja's generatorObject state machine (states, delegated iterator, next/throw/return, yield* forwarding "
